@@ -360,6 +360,10 @@ def call_builtin(I, st, name, args, kwargs, node):
             raise OutOfSubset("float() of a string")
         return ops.to_real(v) if z3.is_expr(v) else v
     if name == "str":
+        if args:
+            hk = I.ctx._hook("to_str", I, st, args[0])
+            if hk is not NotImplemented:
+                return hk
         return str_of(st, args[0]) if args else ""
     if name == "repr":
         return I.ctx.opaque_str(st, "repr")
